@@ -32,7 +32,7 @@ func init() {
 			"(recording handler ending after 0/1/3/many reads, slow, small read buffer, closing the connection itself; shipped echo; non-matching route; proxy to a UDP echo upstream). " +
 			"oracle: each association's delivered byte stream is a concatenation of an in-order subsequence of its own client's datagrams; a datagram reaches at most one association; every reply " +
 			"is addressed to the owner; the process survives and answers a fresh probe client after each storm; after an association ended, one of 5 spaced probes of that client is served by a new association. " +
-			"non-trivial = >=2 datagrams delivered; distinct = hash(scenario parameters, event-kind order signature)",
+			"non-trivial = >=2 datagrams delivered; distinct = hash(scenario parameters, event-kind order signature). real-socket scenario proxydown: the proxy handler's upstream port is closed when the first clients send (ICMP unreachable ends the upstream side), then an echo upstream starts there and 2-4 clients with fresh addresses must each get their own datagram back. scripted scenarios may give the server further listen addresses (second packet listener, stream listener) after the UDP one.",
 		Assumptions: []string{
 			"datagram loss at association teardown is allowed (the statement does not promise reliability)",
 			"the 30 s idle expiry is exercised only in the thorough tier",
